@@ -24,8 +24,8 @@ KANI_DOMAIN = {
     'greeting_default': 'the single default greeting',
     'cmdname_as_str': 'the single command name',
     'bytes_spec_bm_read': 'BytesMut of <= 8 octets', 'bytes_spec_bm_write': 'symbolic u8/u32/u64 and slices of <= 8 octets', 'bytes_spec_b_from_str': 'one literal',
-    'bytes_spec_bm_split_to': 'BytesMut of <= 4 octets', 'bytes_spec_bm_freeze': 'BytesMut of <= 4 octets', 'bytes_spec_bm_reserve': 'BytesMut of <= 4 octets, reserve <= 16',
-    'bytes_spec_b_basic': 'Bytes of <= 4 octets', 'bytes_spec_b_consume': 'Bytes of <= 4 octets',
+    'bytes_spec_bm_split_to': 'BytesMut of <= 4 octets', 'bytes_spec_bm_freeze': 'BytesMut of <= 4 octets',
+    'bytes_spec_b_basic': 'Bytes of <= 4 octets', 'bytes_spec_b_split_to': 'Bytes of <= 4 octets', 'bytes_spec_b_advance': 'Bytes of <= 4 octets', 'bytes_spec_b_get': 'Bytes of <= 4 octets',
     'encode_loop3': 'messages of 1..=3 frames drawn from the static bodies "", "a", "b"',
     'encode_loop': 'messages of 1..=3 frames with bodies of 0..=2 symbolic octets',
     'ready_ser': 'READY for every socket type, identity absent or 1..=3 symbolic octets',
@@ -201,6 +201,7 @@ PROPS = {
             # the PUB / XPUB subscription-message parser: octets from a subscriber
             ('pubsub', r'^(PubSocketBackend|XPubSocketBackend)::message_received$', A, None),
             ('pubsub', r'^ZmqMessage::into_vec$', A, None),
+            ('pubsub', r'^SubSocketBackend::create_subs_message$', A, None),
             ('handshake', r'^SocketType::compatible$', S, None),
             ('handshake', r'PeerIdentity as TryFrom<Bytes>', S, None),
             ('handshake', r'^negotiate_version$', S, None),
@@ -217,8 +218,8 @@ PROPS = {
             'quick': [('mech_parse', 'complete'), ('compat_table', 'complete'), ('socktype_parse', 'bounded')],
             'thorough': [('mech_parse', 'complete'), ('compat_table', 'complete'), ('socktype_parse', 'bounded'),
                          ('bytes_spec_bm_read', 'bounded'), ('bytes_spec_bm_write', 'bounded'), ('bytes_spec_b_from_str', 'bounded'),
-                         ('bytes_spec_bm_split_to', 'bounded'), ('bytes_spec_bm_freeze', 'bounded'), ('bytes_spec_bm_reserve', 'bounded'),
-                         ('bytes_spec_b_basic', 'bounded'), ('bytes_spec_b_consume', 'bounded')],
+                         ('bytes_spec_bm_split_to', 'bounded'), ('bytes_spec_bm_freeze', 'bounded'),
+                         ('bytes_spec_b_basic', 'bounded'), ('bytes_spec_b_split_to', 'bounded'), ('bytes_spec_b_advance', 'bounded'), ('bytes_spec_b_get', 'bounded')],
         },
         'kani_timeout': {'thorough': 3000},
         'assumptions': [],
